@@ -85,6 +85,12 @@ def do_jobs(jobs):
             if nr >= 16 and L < facts.STD_SALT_CHARS[fm]:
                 viol("salt-below-standard", "with %d random bytes the salt has only %d characters (standard %d): %r" % (
                     nr, L, facts.STD_SALT_CHARS[fm], g))
+            if fm in ("scrypt", "yescrypt", "gost_yescrypt") and nr >= 16:
+                # these methods take 128..512 bits of salt: all supplied bytes up to 64
+                want_bits = min(nr, 64) * 8
+                if L * 6 < want_bits:
+                    viol("salt-ignores-supplied-bytes", "%d random bytes supplied but the salt %r carries only %d bits "
+                                                        "(documented 128..512)" % (nr, d["salt"], L * 6))
             if nr < facts.MIN_NRBYTES[fm]:
                 viol("too-few-bytes-accepted", "only %d random bytes but a setting was produced: %r" % (nr, g))
             off, k, mode = decode.consumed_window(fm, L)
